@@ -47,7 +47,10 @@ type SpecMatcher struct {
 	Yes   func(prefix []byte) bool
 	Never bool // never decides
 	Fail  bool // returns a matcher error once Need bytes are visible
-	Hist  *[]MatchEval
+	// Fn, when set, is the whole specification: verdict (0 no, 1 yes, 2 more, 3 error)
+	// as a pure function of the visible bytes; the matcher peeks.
+	Fn   func(visible []byte) int
+	Hist *[]MatchEval
 }
 
 var ErrSpecMatcher = errors.New("spec matcher error")
@@ -55,6 +58,9 @@ var ErrSpecMatcher = errors.New("spec matcher error")
 // Spec is the pure specification: verdict on a visible prefix.
 // 1 yes, 0 no, 2 more, 3 error.
 func (m *SpecMatcher) Spec(visible []byte) int {
+	if m.Fn != nil {
+		return m.Fn(visible)
+	}
 	if m.Never {
 		return 2
 	}
@@ -100,6 +106,17 @@ func (m *SpecMatcher) Match(cx *layer4.Connection) (bool, error) {
 }
 
 func (m *SpecMatcher) match(cx *layer4.Connection) (bool, error) {
+	if m.Fn != nil {
+		switch m.Fn(cx.MatchingBytes()) {
+		case 1:
+			return true, nil
+		case 2:
+			return false, layer4.ErrConsumedAllPrefetchedBytes
+		case 3:
+			return false, ErrSpecMatcher
+		}
+		return false, nil
+	}
 	if m.Never {
 		// consume everything visible, then ask for more
 		buf := make([]byte, 512)
